@@ -656,9 +656,9 @@ class System:
         >>> sys.del_comp("Buck", del_childs=True)
 
         """
-        eidx = self._get_index(name)
-        if eidx == -1:
+        if name not in self._g.attrs["nodes"].keys():  # rail names are not accepted
             raise ValueError("Component name does not exist!")
+        eidx = self._get_index(name)
         parents = self._get_parents()
         if parents[eidx] == -1:  # source node
             if not del_childs:
